@@ -3,6 +3,7 @@
 package timecache
 
 import (
+	"context"
 	"sync"
 	"time"
 )
@@ -169,4 +170,42 @@ func vpH_C02_cache_step() {
 		vpCover(had && exp0[k].Equal(now), "sweep exactly at the expiry instant keeps the entry")
 	}
 	vpCover(had && last, "last-seen with entry")
+}
+
+// background: the REAL sweeper goroutine (ticker loop) receives one tick: it forgets exactly the entries whose expiry
+// lies before the instant of that tick, so an ID is never forgotten before its TTL has elapsed.
+func vpH_C02_background() {
+	S := time.Minute
+	ttl := time.Duration(vpInt("ttl", 1, 1<<40))
+	m := map[string]time.Time{}
+	var lk sync.Mutex
+	keys := []string{"k0", "k1"}
+	now0 := time.Now()
+	present := map[string]bool{}
+	exp := map[string]time.Time{}
+	for _, k := range keys {
+		pr := vpBool("present")
+		e := now0.Add(time.Duration(vpInt("exp_off", -(1 << 41), 1<<41)))
+		present[k] = pr
+		exp[k] = e
+		if pr {
+			vpAssume(!e.After(now0.Add(ttl))) // expiry = sighting + ttl for a sighting not in the future
+			m[k] = e
+		}
+	}
+	ctx, cancel := context.WithCancel(context.Background())
+	vpRunWithTick(func() { background(ctx, &lk, m, S) }, S)
+	tick := now0.Add(S)
+	for _, k := range keys {
+		_, ok := m[k]
+		if present[k] {
+			vpAssert(ok == !exp[k].Before(tick), "the background sweep forgets exactly the entries whose expiry lies before the tick; an ID inside its TTL is kept")
+		} else {
+			vpAssert(!ok, "the sweep adds nothing")
+		}
+	}
+	vpCover(present["k0"] && present["k1"] && len(m) == 1, "one forgotten, one kept")
+	vpCover(present["k0"] && exp["k0"].Equal(tick), "expiry exactly at the tick")
+	cancel()
+	vpFireAll()
 }
